@@ -36,7 +36,7 @@ PROPS = {
     'C05': dict(streams=['threeway', 'conv']),
     'C06': dict(streams=['midix', 'write']),
     'C07': dict(streams=['ticks', 'write'], modules=['C07', 'C07Float']),
-    'C08': dict(streams=['midix', 'write']),
+    'C08': dict(streams=['midix', 'write'], modules=['C08', 'C08Bytes']),
     'C09': dict(streams=['robust', 'conv', 'write', 'dict']),
     'C10': dict(streams=['conv', 'wconv', 'note', 'scale']),
     'C11': dict(streams=['variants', 'lex']),
